@@ -2025,6 +2025,30 @@ Proof.
     split; [intros X; rewrite A1 in X; discriminate|]. intros _. exact A2.
 Qed.
 
+(* drain: polls and reads in a loop, sink calls in between (sinks are scripts: no system calls) *)
+Lemma HN_drain_loop T c fuel : forall p s w r p' s' w', HN T c p w -> drain_loop fuel p s w = Ret (r, p', s') w' -> HN T c p' w'.
+Proof.
+  induction fuel as [|f IH]; intros p s w r p' s' w' H E; cbn [drain_loop] in E; [discriminate|].
+  apply bind_inv in E as ([r1 evs] & w1 & E1 & E). cbv beta iota in E.
+  pose proof (HN_step _ _ _ _ _ _ (HI_neutral _ _ _ _ _ _ _ (fc_reproc_poll _ _) (proj1 H) E1) (nk_run _ _ _ _ (nk_reproc_poll _ _) ltac:(apply H) E1) H) as H1.
+  destruct (r1 <? 0). { apply ret_inv in E as [E ->]. injection E as _ -> _. exact H1. }
+  cbv zeta in E. destruct (has_bit _ REPROC_EVENT_DEADLINE). { apply ret_inv in E as [E ->]. injection E as _ -> _. exact H1. }
+  apply bind_inv in E as ([[r2 rs] p2] & w2 & E2 & E). cbv beta iota in E.
+  pose proof (HN_step _ _ _ _ _ _ (HI_reproc_read _ _ _ _ _ _ _ _ _ _ _ (proj1 H1) E2) (nk_run _ _ _ _ (nk_reproc_read _ _ _ _) ltac:(apply H1) E2) H1) as H2.
+  destruct ((r2 <? 0) && negb (r2 =? REPROC_EPIPE)). { apply ret_inv in E as [E ->]. injection E as _ -> _. exact H2. }
+  cbv zeta in E. destruct (sink_call _ _ _ _ s) as [v s2].
+  destruct (negb (v =? 0)). { apply ret_inv in E as [E ->]. injection E as _ -> _. exact H2. }
+  exact (IH _ _ _ _ _ _ _ H2 E).
+Qed.
+Lemma HN_reproc_drain T c fuel p s w r p' s' w' : HN T c p w -> reproc_drain fuel p s w = Ret (r, p', s') w' -> HN T c p' w'.
+Proof.
+  intros H E. unfold reproc_drain in E. destruct (sink_call 0 _ _ _ s) as [v s1].
+  destruct (negb (v =? 0)). { apply ret_inv in E as [E ->]. injection E as _ -> _. exact H. }
+  destruct (sink_call 1 _ _ _ s1) as [v2 s2].
+  destruct (negb (v2 =? 0)). { apply ret_inv in E as [E ->]. injection E as _ -> _. exact H. }
+  exact (HN_drain_loop _ _ _ _ _ _ _ _ _ _ H E).
+Qed.
+
 (* ---- histories ---- *)
 Inductive hop :=
 | HStart (argv : option (list str)) (o : options) (src : Z)
@@ -2035,7 +2059,8 @@ Inductive hop :=
 | HWait (t : Z)
 | HTerminate
 | HKill
-| HStop (acts : stop_actions).
+| HStop (acts : stop_actions)
+| HDrain (fuel : nat) (s : sinkst).
 
 Definition run_hop (ck : rp -> MW unit) (p : rp) (op : hop) : MW rp :=
   match op with
@@ -2048,6 +2073,7 @@ Definition run_hop (ck : rp -> MW unit) (p : rp) (op : hop) : MW rp :=
   | HTerminate => reproc_terminate p ;> ret p
   | HKill => reproc_kill p ;> ret p
   | HStop acts => let* '(_, p') := reproc_stop p acts in ret p'
+  | HDrain fuel s => let* '(_, p', _) := reproc_drain fuel p s in ret p'
   end.
 Fixpoint run_hops (ck : rp -> MW unit) (p : rp) (ops : list hop) : MW rp :=
   match ops with
@@ -2074,6 +2100,7 @@ Proof.
   - apply bind_inv in E as (x & w1 & E1 & E). apply ret_inv in E as [-> ->].
     exact (HN_step _ _ _ _ _ _ (HI_reproc_kill _ _ _ _ _ _ (proj1 H) E1) (reproc_kill_nk _ _ _ _ ltac:(apply H) (HI_ne _ _ _ _ (proj1 H)) E1) H).
   - apply bind_inv in E as ([r p1] & w1 & E1 & E). apply ret_inv in E as [-> ->]. exact (HN_reproc_stop _ _ _ _ _ _ _ _ H E1).
+  - apply bind_inv in E as ([[r p1] s1] & w1 & E1 & E). apply ret_inv in E as [-> ->]. exact (HN_reproc_drain _ _ _ _ _ _ _ _ _ _ H E1).
 Qed.
 Lemma HN_run_hops T c ck ops : forall p w p' w', HN T c p w -> (forall pc0, kp c (ck pc0)) -> run_hops ck p ops w = Ret p' w' -> HN T c p' w'.
 Proof.
